@@ -117,10 +117,11 @@ impl Inner {
         let descriptions = self.descriptions.read().unwrap_or_else(PoisonError::into_inner);
 
         for (name, mut by_labels) in counters.drain() {
-            let unit = descriptions.get(name.as_str()).and_then(|(desc, unit)| {
+            let (desc, unit) = self.describe_family(&descriptions, name.as_str());
+            let name = family_name(name, unit);
+            if let Some(desc) = desc {
                 write_help_line(&mut output, name.as_str(), desc);
-                *unit
-            });
+            }
 
             write_type_line(&mut output, name.as_str(), "counter");
             for (labels, value) in by_labels.drain() {
@@ -131,17 +132,18 @@ impl Inner {
                     &labels,
                     None,
                     value,
-                    unit.filter(|_| self.enable_unit_suffix),
+                    None,
                 );
             }
             output.push('\n');
         }
 
         for (name, mut by_labels) in gauges.drain() {
-            let unit = descriptions.get(name.as_str()).and_then(|(desc, unit)| {
+            let (desc, unit) = self.describe_family(&descriptions, name.as_str());
+            let name = family_name(name, unit);
+            if let Some(desc) = desc {
                 write_help_line(&mut output, name.as_str(), desc);
-                *unit
-            });
+            }
 
             write_type_line(&mut output, name.as_str(), "gauge");
             for (labels, value) in by_labels.drain() {
@@ -152,19 +154,20 @@ impl Inner {
                     &labels,
                     None,
                     value,
-                    unit.filter(|_| self.enable_unit_suffix),
+                    None,
                 );
             }
             output.push('\n');
         }
 
         for (name, mut by_labels) in distributions.drain() {
-            let unit = descriptions.get(name.as_str()).and_then(|(desc, unit)| {
-                write_help_line(&mut output, name.as_str(), desc);
-                *unit
-            });
-
+            let (desc, unit) = self.describe_family(&descriptions, name.as_str());
             let distribution_type = self.distribution_builder.get_distribution_type(name.as_str());
+            let name = family_name(name, unit);
+            if let Some(desc) = desc {
+                write_help_line(&mut output, name.as_str(), desc);
+            }
+
             write_type_line(&mut output, name.as_str(), distribution_type);
             for (labels, distribution) in by_labels.drain(..) {
                 let (sum, count) = match distribution {
@@ -179,7 +182,7 @@ impl Inner {
                                 &labels,
                                 Some(("quantile", quantile.value())),
                                 value,
-                                unit.filter(|_| self.enable_unit_suffix),
+                                None,
                             );
                         }
 
@@ -194,7 +197,7 @@ impl Inner {
                                 &labels,
                                 Some(("le", le)),
                                 count,
-                                unit.filter(|_| self.enable_unit_suffix),
+                                None,
                             );
                         }
                         write_metric_line(
@@ -204,7 +207,7 @@ impl Inner {
                             &labels,
                             Some(("le", "+Inf")),
                             histogram.count(),
-                            unit.filter(|_| self.enable_unit_suffix),
+                            None,
                         );
 
                         (histogram.sum(), histogram.count())
@@ -218,7 +221,7 @@ impl Inner {
                     &labels,
                     None,
                     sum,
-                    unit.filter(|_| self.enable_unit_suffix),
+                    None,
                 );
                 write_metric_line::<&str, u64>(
                     &mut output,
@@ -227,7 +230,7 @@ impl Inner {
                     &labels,
                     None,
                     count,
-                    unit.filter(|_| self.enable_unit_suffix),
+                    None,
                 );
             }
 
@@ -240,6 +243,34 @@ impl Inner {
     fn run_upkeep(&self) {
         self.drain_histograms_to_distributions();
     }
+
+    /// Looks up the description of a metric family, and the unit to suffix its name with, if any.
+    fn describe_family<'a>(
+        &self,
+        descriptions: &'a HashMap<String, (SharedString, Option<Unit>)>,
+        name: &str,
+    ) -> (Option<&'a SharedString>, Option<Unit>) {
+        match descriptions.get(name) {
+            Some((desc, unit)) => (Some(desc), unit.filter(|_| self.enable_unit_suffix)),
+            None => (None, None),
+        }
+    }
+}
+
+/// Appends the unit suffix to the name of a metric family.
+///
+/// The suffix is part of the family name, so that the `HELP` and `TYPE` lines and every sample of
+/// the family agree on it, with type-specific suffixes (`_bucket`, `_sum`, `_count`) coming last.
+fn family_name(mut name: String, unit: Option<Unit>) -> String {
+    match unit {
+        Some(Unit::Count) | None => {}
+        Some(Unit::Percent) => name.push_str("_ratio"),
+        Some(unit) => {
+            name.push('_');
+            name.push_str(unit.as_str());
+        }
+    }
+    name
 }
 
 /// A Prometheus recorder.
